@@ -108,9 +108,11 @@ def apply_fault(text, f):
             else:
                 new = old[:1] + "1" * L + old[1:]
         elif cls == "keyword":
-            new = old + "A" * L
+            pat = f.get("pat", "A")                   # "A", "A_", "_": underscores are what the name-prettifying code looks at
+            new = old + (pat * (L // len(pat) + 1))[:L]
         elif cls == "enum":
-            new = "." + "E" * L + "."
+            pat = f.get("pat", "E")
+            new = "." + (pat * (L // len(pat) + 1))[:L] + "."
         elif cls == "string":
             new = "'" + ("a" * L if f.get("fill", "a") == "a" else ("''" * (L // 2))) + "'"
         elif cls == "binary":
@@ -230,6 +232,9 @@ def gen_fault(r, kinds=None, schema_names=None):
             f["part"] = r.choice(["int", "frac", "exp"])
         if cls == "string":
             f["fill"] = r.choice(["a", "q"])
+        if cls in ("keyword", "enum"):
+            f["pat"] = r.choice(["A", "A", "A_", "_", "AB_C"])
+            f["len"] = r.choice([40, 70, 100, 300, 1000, 8190, 8191, 8192, 8193, 9000, 70000, 100000])   # BUFSIZ is 8192
         return f
     if k == "garble":
         alphabet = "(),;$*#'\".1A-+E\\/ \n"
